@@ -30,6 +30,13 @@
 //        mode = benign : same foreign call, but the main thread runs the loop steps only after
 //                        F has returned from runAfter (join first)
 //        mode = loop   : runAfter on the loop (main) thread itself, then the loop steps
+//        mode = overlap: as forced, but while F is parked after the hand-off the main thread runs only
+//                        doPendingFunctors (the timer A gets registered, it is not due) and ADDS AN UNRELATED
+//                        TIMER B (another Timer is constructed while A's add is in flight); F is released and
+//                        returns id_A; the main thread calls cancel(id_A) (processed at once on the loop
+//                        thread), lets the clock pass A's deadline and runs TimerQueue::handleRead():
+//                        id_seq_ok = id_A carries the sequence of the Timer it points to (A was constructed
+//                        first in this op), ran must be 0 (the cancel named A)
 //   end
 // stdout (flushed after each line):
 //   case <id>
@@ -113,6 +120,7 @@ extern "C" int __wrap_gettimeofday(struct timeval* tv, void* tz)
 // ------------------------------------------------------------------ driver
 static std::atomic<int> g_ran(0);
 static void onTimer() { g_ran.fetch_add(1); }
+static void onTimerB() {}
 static void nullOutput(const char*, int) {}
 static void nullFlush() {}
 
@@ -163,15 +171,17 @@ int main()
     g_ran.store(0);
     TimerId id;
     const char* status = "ok";
+    const int64_t before = Timer::numCreated();   // the timer of this op (A) is the next one constructed
 
     if (mode == "loop")
     {
       id = L->runAfter(delay, onTimer);          // runInLoop runs addTimerInLoop at once
       loopSteps(L, false, advance_us);
     }
-    else if (mode == "forced" || mode == "benign")
+    else if (mode == "forced" || mode == "benign" || mode == "overlap")
     {
-      const bool forced = (mode == "forced");
+      const bool overlap = (mode == "overlap");
+      const bool forced = (mode == "forced") || overlap;
       {
         std::lock_guard<std::mutex> lk(g_mu);
         g_hook_reached = g_loop_done = g_f_done = false;
@@ -192,7 +202,23 @@ int main()
         while (!g_f_done && !(forced && g_hook_reached)) g_cv.wait(lk);
         hooked = g_hook_reached && !g_f_done;
       }
-      if (hooked)
+      if (hooked && overlap)
+      {
+        // F is parked after the hand-off; A gets registered (not due), then another Timer is constructed
+        L->handleRead();
+        L->doPendingFunctors();
+        L->runAfter(1000000.0, onTimerB);
+        {
+          std::lock_guard<std::mutex> lk(g_mu);
+          g_loop_done = true;
+          g_cv.notify_all();
+        }
+        F.join();
+        L->cancel(id);                       // loop thread: cancelInLoop runs at once
+        g_now_us.fetch_add(advance_us);
+        L->timerQueue_->handleRead();        // A's deadline has passed; B is far away
+      }
+      else if (hooked)
       {
         // F is parked inside wakeup()'s write: functor queued, mutex released, `timer` handed off
         loopSteps(L, true, advance_us);
@@ -216,8 +242,8 @@ int main()
       fprintf(stderr, "C07_race: unknown mode %s\n", mode.c_str());
       return 2;
     }
-    // exactly one Timer is constructed per op, so its sequence is the creation counter now
-    const int64_t expect = Timer::numCreated();
+    // the Timer of this op is the first one constructed in it
+    const int64_t expect = before + 1;
     printf("%s mode=%s ran=%d id_seq_ok=%d\n", status, mode.c_str(), g_ran.load(),
            id.sequence_ == expect ? 1 : 0);
     fflush(stdout);
